@@ -12,12 +12,12 @@ COMMON_ASSUMPTIONS = [
 PROPS = {}
 
 PROPS['C20'] = {
-    'modules': ['c20', ('c10', ['R10.4']), ('siblings', ['SB2']), ('c08', ['X1', 'X7'])],
+    'modules': ['c20', ('c10', ['R10.4']), ('siblings', ['SB2']), ('c08', ['X1', 'X7']), 'invariants'],
     'level': 'other',
     'quick_configs': ['default'],
     'thorough_configs': ['default', 'noalloc', 'nounicode', 'nostd'],
     'controls': [],
-    'floors': {'default': {'W1': 60, 'W1.bytes': 1, 'W2': 1, 'R10.4.hint': 1, 'SB2': 1, 'W4': 2, 'W2c': 1, 'X1': 3, 'X7': 13}},
+    'floors': {'default': {'W1': 60, 'W1.bytes': 1, 'W2': 1, 'R10.4.hint': 1, 'SB2': 1, 'W4': 2, 'W2c': 1, 'X1': 3, 'X7': 13, 'INV.DiskSlice': 1}},
     'rule_text': 'one obligation per overflow/division/shift site of the sector/cluster/offset arithmetic '
                  '(boot_sector.rs geometry helpers, fs.rs offset_from_*/DiskSlice, table.rs get/set/find_free/alloc): '
                  'discharged by the interval analysis under validated-BPB invariants or a reasoned table entry; the '
@@ -530,12 +530,12 @@ PROPS['C04'] = {
 }
 
 PROPS['C11'] = {
-    'modules': ['c11', ('c10', ['R10.4', 'R10.2']), ('c03', ['R3.8']), ('c20', ['W1', 'W4']), ('c08', ['X2'])],
+    'modules': ['c11', ('c10', ['R10.4', 'R10.2']), ('c03', ['R3.8']), ('c20', ['W1', 'W4']), ('c08', ['X2']), 'invariants'],
     'level': 'other',
     'quick_configs': ['default'],
     'thorough_configs': ALL,
     'controls': ['R11.1', 'R11.2'],
-    'floors': {'default': {'R11.1': 6, 'R11.2.adapter': 1, 'R11.3': 4, 'R10.4.hint': 1, 'R3.8': 1, 'R10.2': 1, 'R11.4': 2, 'R11.5': 9}},
+    'floors': {'default': {'R11.1': 6, 'R11.2.adapter': 1, 'R11.3': 4, 'R10.4.hint': 1, 'R3.8': 1, 'R10.2': 1, 'R11.4': 2, 'R11.5': 9, 'INV.DiskSlice': 1}},
     'rule_text': 'one obligation per raw device-write site (closed set; each must be dominated by a successful seek whose '
                  'offset provenance is in an allowed class), per clipping site (File::write, DiskSlice read/write/seek), '
                  'plus the allocator bounds (hint clamp, padding entries; C10 rules) and the truncate order (C03 rule)',
@@ -691,4 +691,5 @@ RULE_GLOSSARY = {
     'T3.start': 'a slot that starts a run resizes the accumulator before anything is copied into it',
     'W2c': 'the FAT12 scan compares the cluster number with the bound between incrementing it and the next table read',
     'R1.9': 'entry identity (rename onto itself) is decided on the absolute entry position',
+    'INV.DiskSlice': 'offset <= size and byte counts below 2^48 hold at every construction and are kept by every store (inductive proof; feeds the panic inventories)',
 }
